@@ -380,7 +380,7 @@ def chain_facts(path, eq, min_bytes=8, limit=20000):
         n = x.size() // 8
         cnt = 0
         for k in range(n):
-            if check(*base, _byte(x, k, n) != _byte(y, k, n), timeout_ms=5000)[0] == "unsat":
+            if check(*base, _byte(x, k, n) != _byte(y, k, n), timeout_ms=5000, soft=True)[0] == "unsat":
                 cnt += 1
                 if cnt >= min(min_bytes, n):
                     return True
